@@ -36,6 +36,8 @@ type memConn struct {
 	endErr      error                 // returned by Read once the chunks are exhausted (nil: block until Close)
 	delays      map[int]time.Duration // pause before handing out the chunk with this index (counted from the first)
 	handed      int
+	beforeDone  int
+	before      func(idx int) // called (unlocked) before the chunk with this index is handed out: lets a scenario pace its input
 }
 
 func newMemConn(chunks [][]byte) *memConn {
@@ -57,6 +59,13 @@ func (c *memConn) Read(p []byte) (int, error) {
 		return 0, errMemClosed
 	}
 	c.mu.Lock()
+	if c.before != nil && len(c.chunks) > 0 && c.beforeDone <= c.handed {
+		c.beforeDone = c.handed + 1
+		idx := c.handed
+		c.mu.Unlock()
+		c.before(idx)
+		c.mu.Lock()
+	}
 	if d, ok := c.delays[c.handed]; ok && len(c.chunks) > 0 {
 		delete(c.delays, c.handed)
 		c.mu.Unlock()
